@@ -17,7 +17,8 @@ CHECKS = {
               "distinct = distinct canonical case JSON (64-bit hash)."
               " Virtual time passes (0/1/20/2000 ms) at every quiescent point of the generated schedule, so that timers inside the code under test fire while handlers are parked."
               " repeat: 1..3 unary methods called again and again (2..6 rounds of 1..4 concurrent calls, every topology, with or without metadata and deadline): every call gets its own handler's reply to its own request, each handler runs once per call - the main sub-check gives every call a method of its own."
-              " net (http): the harness counts the POSTs the receiving end refused with 400 Bad Request; every envelope of these calls was produced by the library itself, so a refusal is reported as a violation even when the time budget has run out."),
+              " net (http): the harness counts the POSTs the receiving end refused with 400 Bad Request; every envelope of these calls was produced by the library itself, so a refusal is reported as a violation even when the time budget has run out."
+              " In a third of the demux/proxy cases every client first makes a warm-up call and the Demux is told to Cancel its key (demux_key_returns): the calls of the case are the first envelopes of the key's next life."),
         jobs=[dict(test="TestC01", quick=1920, thorough=24000), dict(test="TestC01Net", quick=64, thorough=1000, shards=4), dict(test="TestC01Reuse", quick=200, thorough=2000, shards=4), dict(test="TestC01Repeat", quick=1600, thorough=16000)],
         floors={"TestC01:reordered=true": 0.15, "TestC01:topo=proxy": 0.1, "TestC01:topo=demux": 0.1, "TestC01:ser=true": 0.25, "TestC01:time_passes=true": 0.3, "TestC01:stats=true": 0.1, "TestC01Repeat:repeat.topo=proxy": 0.08, "TestC01Repeat:repeat.plain_calls=true": 0.2},
         assumptions=COMMON_ASSUMPTIONS,
@@ -47,8 +48,9 @@ CHECKS = {
               " Callers optionally use the API in unusual but legal orders: CloseSend twice; further receives after the end (which must report the same outcome again)."
               " The scripted-peer sub-check reaches the peer directly, through a goat.Proxy, or as a logical connection of a goat.Demux."
               " Status messages range from empty to 280 KB (ASCII and multi-byte, around 16 KiB and 64 KiB)."
-              " cut: a handler of any of the four kinds fails, and the caller's transport read fails (9 error values incl. bare io.EOF; write side failing or not; caller parked in its receive or arriving later) while the envelope with that status is still in the transport: the caller must not be told the call succeeded."),
-        jobs=[dict(test="TestC03", quick=4800, thorough=40000), dict(test="TestC03Foreign", quick=800, thorough=10000, shards=4), dict(test="TestC03Race", quick=400, thorough=5000, shards=4), dict(test="TestC03Cut", quick=800, thorough=10000, shards=4), dict(test="FuzzC03", kind="fuzz", quick=0, thorough=90)],
+              " cut: a handler of any of the four kinds fails, and the caller's transport read fails (9 error values incl. bare io.EOF; write side failing or not; caller parked in its receive or arriving later) while the envelope with that status is still in the transport: the caller must not be told the call succeeded."
+              " parked-send: a client-streaming or bidirectional handler returns (nil or any failure kind) while a further send of the caller, issued from a second goroutine, is parked inside the transport write; the caller's receive must report the handler's outcome, whatever the parked send returns afterwards."),
+        jobs=[dict(test="TestC03", quick=4800, thorough=40000), dict(test="TestC03Foreign", quick=800, thorough=10000, shards=4), dict(test="TestC03Race", quick=400, thorough=5000, shards=4), dict(test="TestC03Cut", quick=800, thorough=10000, shards=4), dict(test="TestC03ParkedSend", quick=800, thorough=10000, shards=4), dict(test="FuzzC03", kind="fuzz", quick=0, thorough=90)],
         floors={"TestC03:pos=mid-stream": 0.03, "TestC03:intercept=true": 0.1, "TestC03:api_order=close-twice": 0.05, "TestC03Foreign:foreign.via=proxy": 0.08, "TestC03Foreign:foreign.via=demux": 0.08, "TestC03Cut:cut.err=eof": 0.05, "TestC03Cut:cut.kind=unary": 0.1},
         assumptions=COMMON_ASSUMPTIONS,
     ),
@@ -59,7 +61,8 @@ CHECKS = {
               "Oracle model.MD (independent join/lower-case/base64 implementation): handler's incoming metadata, Header(), Trailer(), unary InHeader (recording stats handler) and the tap (decoded by the model) all equal the model; response metadata only on the first response envelope. "
               "Non-trivial = a -bin value with NUL or non-UTF-8 bytes, or a key with >=2 values, or >=2 set calls; distinct = canonical case hash."
               " reuse: one header MD, one trailer MD and one outgoing-context MD object are kept by the application and passed again in each of 2..5 calls (together with per-call sets); each call must observe exactly its own sets and the application's objects must be left unchanged."
-              " servectx: the context passed to Serve is cancelled while the connection keeps serving; handlers started afterwards must still see the request metadata."),
+              " servectx: the context passed to Serve is cancelled while the connection keeps serving; handlers started afterwards must still see the request metadata."
+              " servectx: the streaming handlers served after the Serve context has ended also call SetHeader, SendHeader (whose write may be refused: their context is done) and SetTrailer; a caller whose stream completes must see all of it."),
         jobs=[dict(test="TestC04", quick=4800, thorough=50000), dict(test="TestC04Foreign", quick=800, thorough=10000, shards=4), dict(test="FuzzC04", kind="fuzz", quick=0, thorough=90), dict(test="TestC04Conc", quick=300, thorough=3000, shards=4), dict(test="TestC04Reuse", quick=800, thorough=8000), dict(test="TestC04ServeCtx", quick=480, thorough=4800)],
         floors={"TestC04:md-nontrivial": 0.3, "TestC04:hdr-via=sendheader": 0.03, "TestC04:hdr-via=first-message": 0.05, "TestC04:hdr-via=with-trailer": 0.05, "TestC04:unary": 0.1},
         assumptions=COMMON_ASSUMPTIONS,
@@ -133,7 +136,8 @@ CHECKS = {
               " The failing transport's error value is drawn from kit.FaultErrKinds (a private error, io.EOF, an error wrapping io.EOF, io.ErrUnexpectedEOF, io.ErrClosedPipe, net.ErrClosed, context.Canceled, os.ErrDeadlineExceeded): goat uses io.EOF as its own clean-end signal, so a transport reporting the peer's close that way must not read as success."
               " late: as C02's late sub-check (responses delivered before the failure, read after it)."
               " A quarter of the streaming calls have a lazy caller, which starts receiving only after the whole response script has been written (so envelopes back up inside the connection, and the read loop may be parked short of the failure point); half of those send a message before their first receive."
-              " give-up: the same executor on the family where a lazy caller's failing send (and the teardown it causes) meets the read loop's delivery of that stream's message and trailer, which had been held up behind another lazy stream."),
+              " give-up: the same executor on the family where a lazy caller's failing send (and the teardown it causes) meets the read loop's delivery of that stream's message and trailer, which had been held up behind another lazy stream."
+              " storm: 0, 40, 300 or 600 unary calls are already in flight on the connection when the storm begins; all of them must return too."),
         jobs=[dict(test="TestC09", quick=960, thorough=6000), dict(test="TestC09GiveUp", quick=640, thorough=6000), dict(test="TestC09Storm", quick=1600, thorough=40000), dict(test="TestC09Late", quick=1600, thorough=16000), dict(test="FuzzC09", kind="fuzz", quick=0, thorough=90)],
         floors={"TestC09:window=unary": 0.1, "TestC09:window=stream": 0.1, "TestC09:write_fails=false": 0.3, "TestC09:read_error=eof": 0.04, "TestC09:read_error=wrapped-eof": 0.04, "TestC09:stats=true": 0.15, "TestC09:lazy_receiver=true": 0.2},
         assumptions=COMMON_ASSUMPTIONS + ["the check-then-register window is reached through the verif-tagged yield points mux.unary.beforeRegister / mux.stream.beforeRegister"],
@@ -148,9 +152,10 @@ CHECKS = {
               " 0..12 unary requests: with more than eight (goat's unary workers per connection) only Stop is used as the ending."
               " Ending resetfail: the response write that fails is that of a reset (answer to a body for an unknown stream)."
               " Stream kind sbig is opened with a saturating grpc-timeout (99999999H / 2562048H / 99999999M)."
-              " Goroutines: besides the census at the end of the case, a census is taken as soon as Serve has returned and all handlers have finished, while the transport (including writes parked inside it) and the context Serve was called with are still untouched: no goroutine may be running library code then."),
-        jobs=[dict(test="TestC10", quick=4800, thorough=30000), dict(test="FuzzC10", kind="fuzz", quick=0, thorough=90)],
-        floors={"TestC10:ending=readfail": 0.1, "TestC10:ending=writefail": 0.1, "TestC10:ending=stop": 0.12, "TestC10:parked-in-send": 0.1, "TestC10:orphan=true": 0.2},
+              " Goroutines: besides the census at the end of the case, a census is taken as soon as Serve has returned and all handlers have finished, while the transport (including writes parked inside it) and the context Serve was called with are still untouched: no goroutine may be running library code then."
+              " unread: 1..2 streaming handlers (and 0..2 unary ones) wait on their context without receiving while the scripted caller sends 0..3 messages and possibly its half-close to the first stream, so that the read loop is parked handing an envelope to a stream that is not listening; then Stop, or a failing response write: Serve returns, every handler's context is cancelled, every handler has finished, no goroutine of the connection remains."),
+        jobs=[dict(test="TestC10", quick=4800, thorough=30000), dict(test="TestC10Unread", quick=960, thorough=10000, shards=4), dict(test="FuzzC10", kind="fuzz", quick=0, thorough=90)],
+        floors={"TestC10:ending=readfail": 0.1, "TestC10:ending=writefail": 0.1, "TestC10:ending=stop": 0.12, "TestC10:parked-in-send": 0.1, "TestC10:orphan=true": 0.2, "TestC10Unread:unread.read_loop_parked=true": 0.3},
         assumptions=COMMON_ASSUMPTIONS + ["cancelling the context passed to Serve is not among the endings the property lists and is not generated"],
     ),
     "C12": dict(
@@ -161,7 +166,8 @@ CHECKS = {
               "stream handler starts <= well-formed opens and >=1 if any; a body for a never-opened id is answered by a reset for that id; resets only with such a trigger; no envelope for an id never received. Non-trivial = sequence mixes malformed and well-formed envelopes or touches an id twice."
               " Configurations rotate / are drawn: server stats handler; unary handlers that call SetHeader, SendHeader twice, SetHeader and SetTrailer."
               " 0..3 well-formed unary requests are sent first to a handler that returns only after the final shutdown (a handler outliving its connection must not crash the process)."
-              " For the echo method, in sequences where every envelope is digested before the next, a body arriving after the stream was opened, ended by its caller (OK trailer or reset) and left by its handler must be answered with a reset."),
+              " For the echo method, in sequences where every envelope is digested before the next, a body arriving after the stream was opened, ended by its caller (OK trailer or reset) and left by its handler must be answered with a reset."
+              " The alphabet includes method names '/', '/u', '//' and '/<service>/'."),
         jobs=[dict(test="TestC12Enum", kind="enum", quick=1, thorough=1), dict(test="TestC12", quick=3200, thorough=40000), dict(test="FuzzC12", kind="fuzz", quick=0, thorough=150), dict(test="TestC12Reuse", quick=300, thorough=3000, shards=4)],
         assumptions=COMMON_ASSUMPTIONS,
         exhaustive_all=False,
@@ -173,7 +179,8 @@ CHECKS = {
               "(a) bounded-exhaustive: every sequence of length<=2 (3660) each under one of 128 rotating configurations plus a 1/30 sample of length 3 (quick); length<=3 (219660) plus a 1/40 sample of length 4 (thorough); (b) rapid sequences of length 1..30. After the sequence the connection is closed. "
               "Oracle: no crash; every API call (Invoke, Header, RecvMsg loop, Trailer) has returned after the close; a unary success carries a body some envelope addressed to that call carried; successful receives are an in-order subsequence of the bodies addressed to the stream; io.EOF only after a trailer with OK/absent status addressed to the stream and no earlier reset. "
               "Non-trivial = at least one envelope addressed to an outstanding call."
-              " In half of the random cases the 'id nobody uses' is the id of a third call whose opening write was parked in the transport when its context ended."),
+              " In half of the random cases the 'id nobody uses' is the id of a third call whose opening write was parked in the transport when its context ended."
+              " The alphabet includes resets that carry an explicit OK status (with and without trailer)."),
         jobs=[dict(test="TestC13Enum", kind="enum", quick=1, thorough=1), dict(test="TestC13", quick=3200, thorough=40000), dict(test="FuzzC13", kind="fuzz", quick=0, thorough=150)],
         assumptions=COMMON_ASSUMPTIONS,
     ),
@@ -189,8 +196,9 @@ CHECKS = {
               " leftover: 2..6 streams follow one another on one connection, each handler reads only a prefix of what its caller sends and returns; every handler receives a prefix of its own caller's messages and nothing a predecessor left unread."
               " order: one response write of a server stream fails once with a drawn error kind (some look transient), the stream stays open for 100 ms of virtual time: what a caller receives is its own stream's messages in order, none twice, and io.EOF only with all of them."
               " abandon: 2..6 unary calls issued one after the other, all but the last cancelled while their (slow, context-ignoring) handler runs; handlers released in a drawn order; the surviving call gets its own reply, never the late reply of an abandoned one."
-              " pace: one bidirectional stream on each of 1..3 connections, both sides sending 0..8 messages back to back while each side receives at its own pace (pauses of 0..60 ms before every receive, so envelopes back up for longer than any timer inside the library); in a bubble (virtual time) and, as a separate job, in real time (pauses capped at 25 ms): each side receives exactly the other side's messages in order, then io.EOF."),
-        jobs=[dict(test="TestC05Enum", kind="enum", quick=1, thorough=1), dict(test="TestC05", quick=3200, thorough=20000), dict(test="TestC05IDs", quick=1280, thorough=8000), dict(test="TestC05Pace", quick=1200, thorough=12000, shards=4), dict(test="TestC05PaceReal", quick=96, thorough=1600, shards=8),
+              " pace: one bidirectional stream on each of 1..3 connections, both sides sending 0..8 messages back to back while each side receives at its own pace (pauses of 0..60 ms before every receive, so envelopes back up for longer than any timer inside the library); in a bubble (virtual time) and, as a separate job, in real time (pauses capped at 25 ms): each side receives exactly the other side's messages in order, then io.EOF."
+              " shared-md: every handler passes the application's one fixed header object (and one fixed trailer object) to SetHeader/SetTrailer and then adds per-call values with a second call; 2..8 calls of all kinds, 1..3 at a time: every caller sees the fixed values once and exactly its own per-call values, and the shared objects are unchanged."),
+        jobs=[dict(test="TestC05Enum", kind="enum", quick=1, thorough=1), dict(test="TestC05", quick=3200, thorough=20000), dict(test="TestC05IDs", quick=1280, thorough=8000), dict(test="TestC05Pace", quick=1200, thorough=12000, shards=4), dict(test="TestC05PaceReal", quick=96, thorough=1600, shards=8), dict(test="TestC05SharedMD", quick=480, thorough=6000, shards=4),
               dict(test="TestC05History", kind="enum", quick=1, thorough=1, shards=1), dict(test="TestC05Reuse", quick=200, thorough=2000, shards=4), dict(test="TestC05Left", quick=1600, thorough=16000), dict(test="TestC05Order", quick=1600, thorough=16000), dict(test="TestC05Abandon", quick=800, thorough=8000)],
         floors={"TestC05:side=client": 0.25, "TestC05:side=server": 0.25, "TestC05:pooled_payloads=true": 0.3, "TestC05IDs:slow_handlers=true": 0.3, "TestC05IDs:spin_barrier=true": 0.4, "TestC05Pace:pace.slow_receiver=true": 0.5},
         assumptions=COMMON_ASSUMPTIONS,
@@ -219,8 +227,9 @@ CHECKS = {
               " Further drawn dimensions: handler errors that are or wrap io.EOF (the caller must see a failure and End.Error must be non-nil), transport failures with the error values of kit.FaultErrKinds, and for unary ok calls a cancellation issued from inside a client stats handler at the reply's InPayload event (the call succeeds, so End.Error must be nil)."
               " One Server serves two unary and two stream methods; each RPC of a case calls one of them (drawn); server interceptors record the FullMethod they are told, which must be the called one."
               " For unary ok/herr RPCs the Serve context may have been cancelled beforehand (goat keeps serving; every interceptor and stats handler must still see every RPC)."
-              " Under the transport outcome the RPC that was cut off must fail for the caller whatever error value the transport failed with."),
-        jobs=[dict(test="TestC20", quick=4800, thorough=30000), dict(test="FuzzC20", kind="fuzz", quick=0, thorough=90), dict(test="TestC20Overlap", quick=400, thorough=4000, shards=4)],
+              " Under the transport outcome the RPC that was cut off must fail for the caller whatever error value the transport failed with."
+              " send-fault: a client-streaming or bidirectional call whose caller's J-th message (J=0..3) is refused by the transport (9 error values, connection otherwise healthy), after 0..2 earlier RPCs, with 1..3 client and 0..2 server stats handlers: every client handler sees exactly one Begin, first, and exactly one End with a non-nil error; server handlers see complete Begin..End pairs."),
+        jobs=[dict(test="TestC20", quick=4800, thorough=30000), dict(test="FuzzC20", kind="fuzz", quick=0, thorough=90), dict(test="TestC20Overlap", quick=400, thorough=4000, shards=4), dict(test="TestC20SendFault", quick=800, thorough=8000, shards=4)],
         floors={"TestC20:outcome=cancel": 0.08, "TestC20:outcome=transport": 0.06, "TestC20:outcome=openfail": 0.05, "TestC20:chain=6": 0.08, "TestC20:single=true": 0.03, "TestC20:unread=true": 0.02, "TestC20:late_cancel=true": 0.02, "TestC20:handler_error=eof": 0.02, "TestC20:transport_error=eof": 0.004},
         assumptions=COMMON_ASSUMPTIONS + ["a caller's cancellation of a unary call is not conveyed to the server by goat (no reset for unary calls); the harness releases such handlers itself"],
     ),
@@ -235,8 +244,9 @@ CHECKS = {
               "but an envelope sent by the same or another client after both have completed must reach the attached connection exactly once. "
               "Non-trivial = >=2 sources to one destination, a dial-on-demand peer, a rewrite, >=2 proxy clients, or a burst."
               " In a quarter of the envelope-level cases client c0 attaches again under its name before envelope k (the old connection stays up): nothing may reach the superseded connection afterwards."
-              " write-fault: a server-streaming or bidirectional call relayed client -> proxy -> demux -> server, 2..10 messages; one proxy-to-client write fails once with a drawn error kind (some look transient); what the caller receives must be a prefix of what the handler sent, and io.EOF only after all of it."),
-        jobs=[dict(test="TestC16", quick=1600, thorough=20000), dict(test="TestC16RPC", quick=960, thorough=12000), dict(test="TestC16Burst", quick=64, thorough=1000, shards=4), dict(test="TestC16Attach", quick=1600, thorough=24000), dict(test="TestC16WriteFault", quick=800, thorough=10000, shards=4), dict(test="FuzzC16", kind="fuzz", quick=0, thorough=90)],
+              " write-fault: a server-streaming or bidirectional call relayed client -> proxy -> demux -> server, 2..10 messages; one proxy-to-client write fails once with a drawn error kind (some look transient); what the caller receives must be a prefix of what the handler sent, and io.EOF only after all of it."
+              " pace: the C05 pace cases (one bidirectional stream on each of 1..3 client connections, both sides sending 0..8 messages back to back, each side receiving at its own pace) relayed through the proxy and the demux behind it, with pauses of up to 3 s of virtual time before a receive: each side receives exactly the other side's messages in order, then io.EOF."),
+        jobs=[dict(test="TestC16", quick=1600, thorough=20000), dict(test="TestC16RPC", quick=960, thorough=12000), dict(test="TestC16Burst", quick=64, thorough=1000, shards=4), dict(test="TestC16Attach", quick=1600, thorough=24000), dict(test="TestC16WriteFault", quick=800, thorough=10000, shards=4), dict(test="TestC16Pace", quick=800, thorough=8000, shards=4), dict(test="FuzzC16", kind="fuzz", quick=0, thorough=90)],
         floors={"TestC16:dial_on_demand=true": 0.3, "TestC16:rewrite=alias": 0.1, "TestC16:late_dialable=true": 0.05, "TestC16Burst:burst.rpc=true": 0.2, "TestC16Attach:attach.sender=other": 0.3, "TestC16:reattach=true": 0.1, "TestC16WriteFault:fault.err=deadline": 0.05},
         assumptions=COMMON_ASSUMPTIONS + ["loss is attributed to buffer overflow through the verif-tagged counter at the proxy's drop site"],
     ),
@@ -249,7 +259,8 @@ CHECKS = {
               " The bad peer's transport optionally ignores the context passed to Read (as a net.Conn without deadlines does); fault error values are drawn from kit.FaultErrKinds; mode attach-race: a peer attaches at the very moment the first envelope for its undiallable name arrives."
               " Spoofed envelopes optionally carry sender-chosen route fields (a route record ending in the sender's own name, the victim's name, the proxy's name; a return route)."
               " The bad peer's connection is either attached by the peer or dialled on demand by the proxy."
-              " odd-route: between honest rounds c0 sends one envelope with its true source but unusual routing fields - destination = the proxy's own name / empty / c0 itself / a 70 KB name / c1, return route absent / an empty non-nil list / [\"\"] / [proxy's name] / [c0] / [c1]; the proxy must survive, deliver it exactly where the route leads (or nowhere), and keep serving."),
+              " odd-route: between honest rounds c0 sends one envelope with its true source but unusual routing fields - destination = the proxy's own name / empty / c0 itself / a 70 KB name / c1, return route absent / an empty non-nil list / [\"\"] / [proxy's name] / [c0] / [c1]; the proxy must survive, deliver it exactly where the route leads (or nowhere), and keep serving."
+              " reattach with in_callback: the owner brings the failed peer back by calling AddClient from inside the disconnect callback."),
         jobs=[dict(test="TestC17", quick=3200, thorough=30000), dict(test="FuzzC17", kind="fuzz", quick=0, thorough=90)],
         floors={"TestC17:mode=cancel": 0.1, "TestC17:mode=reattach/old_first=false/read": 0.02, "TestC17:mode=spoof/other-source": 0.025, "TestC17:mode=badpeer/slow-failing-dial": 0.012, "TestC17:badpeer.deaf_read=true": 0.05, "TestC17:mode=attach-race": 0.1, "TestC17:spoof.route_fields=true": 0.05, "TestC17:badpeer.dialled=true": 0.05, "TestC17:mode=odd-route": 0.1, "TestC17:odd.next=empty-list": 0.01},
         assumptions=COMMON_ASSUMPTIONS,
@@ -263,8 +274,9 @@ CHECKS = {
               " storm: a feeder goroutine writes 1..4 envelopes for each of 2..24 keys without pausing while a second goroutine cancels a drawn subset of the keys; never-cancelled keys are announced once and receive everything in order, cancelled keys never see duplicates, reordering or foreign envelopes. writefault: one write on the shared transport fails (drawn error value); later arrivals for the key are still delivered, other keys are undisturbed, Cancel still works."
               " Envelopes in the model-based histories carry status / trailer / reset / header metadata as a function of their id and are compared with proto.Equal in both directions."
               " Key 0 optionally has an unusual value (empty string, blank, separators, non-ASCII)."
-              " parked: once the stalled shared-transport write has completed, every write the logical connection had accepted (returned nil) before the key was cancelled is on the shared transport exactly once, and none of the refused ones is."),
-        jobs=[dict(test="TestC18", quick=6400, thorough=80000), dict(test="TestC18RPC", quick=320, thorough=8000), dict(test="TestC18Parked", quick=300, thorough=3000, shards=4), dict(test="TestC18Storm", quick=1600, thorough=16000), dict(test="TestC18WriteFault", quick=640, thorough=6400), dict(test="FuzzC18", kind="fuzz", quick=0, thorough=90)],
+              " parked: once the stalled shared-transport write has completed, every write the logical connection had accepted (returned nil) before the key was cancelled is on the shared transport exactly once, and none of the refused ones is."
+              " pace: the same through a Demux keyed by source (harness fan-in instead of a proxy)."),
+        jobs=[dict(test="TestC18", quick=6400, thorough=80000), dict(test="TestC18RPC", quick=320, thorough=8000), dict(test="TestC18Parked", quick=300, thorough=3000, shards=4), dict(test="TestC18Storm", quick=1600, thorough=16000), dict(test="TestC18WriteFault", quick=640, thorough=6400), dict(test="TestC18Pace", quick=800, thorough=8000, shards=4), dict(test="FuzzC18", kind="fuzz", quick=0, thorough=90)],
         floors={"TestC18:cancel=true": 0.3, "TestC18:stop=true": 0.03, "TestC18:cancel_while_parked=true": 0.03, "TestC18Storm:storm.cancels=true": 0.5, "TestC18Storm:storm.write_faults=true": 0.1},
         assumptions=COMMON_ASSUMPTIONS,
     ),
@@ -280,8 +292,10 @@ CHECKS = {
               " concurrent-writers over HTTP also counts the logical connections announced for the single source: more than one is a violation."
               " object-reuse: one *Rpc object is changed in place (body, method, header metadata, status message lengths around the varint boundaries) between 2..8 writes over WebSocket and HTTP; each write must carry what the object held at that moment."
               " ctx: for HTTP reads 0..2 other readers are already parked on the same logical connection."
-              " ctx (http write): after the blocked Write has failed, 0..2 further Writes on the same connection object with a context that is already done must fail too, without a panic."),
-        jobs=[dict(test="TestC19RoundTrip", quick=480, thorough=8000), dict(test="TestC19Raw", quick=800, thorough=20000), dict(test="TestC19Ctx", quick=48, thorough=400, shards=8),
+              " ctx (http write): after the blocked Write has failed, 0..2 further Writes on the same connection object with a context that is already done must fail too, without a panic."
+              " idle: 0..2 deliveries that parked for lack of a reader and were then given up by their sender (the POST's context ended) precede the idle period."
+              " first: 2..8 POSTs carrying the first envelopes of one source enter ServeHTTP at the same instant (spin barrier, no sockets), on a fresh endpoint, 8..24 rounds per case: the source is announced as one logical connection and all envelopes are readable from it."),
+        jobs=[dict(test="TestC19RoundTrip", quick=480, thorough=8000), dict(test="TestC19Raw", quick=800, thorough=20000), dict(test="TestC19Ctx", quick=48, thorough=400, shards=8), dict(test="TestC19First", quick=96, thorough=1600, shards=8),
               dict(test="TestC19Idle", quick=400, thorough=6000, shards=8), dict(test="TestC19Conc", quick=320, thorough=4000), dict(test="TestC19Reuse", quick=480, thorough=6000), dict(test="FuzzC19Decode", kind="fuzz", quick=0, thorough=120)],
         floors={"TestC19RoundTrip:rt.websocket": 0.25, "TestC19RoundTrip:rt.http": 0.2, "TestC19RoundTrip:rt.channel": 0.1, "TestC19Conc:conc.http": 0.25, "TestC19Idle:idle.fresh=true": 0.15, "TestC09Late:late.some_complete=true": 0.4},
         assumptions=COMMON_ASSUMPTIONS + ["WebSocket and HTTP sub-checks use real loopback sockets and wall-clock budgets; exceeding a budget is reported as inconclusive (exit 2), never as a violation"],
@@ -293,7 +307,8 @@ CHECKS = {
               "C11 abandonments, C16 proxy envelopes and RPCs, C17, C18 demux model and RPCs, C20 interceptors/stats) are executed at GOMAXPROCS 1, 2, 4 and 16 (go test -cpu) with a callback at every verif hook point that yields the processor according to a drawn tape. "
               "The only oracle is the race detector (GORACE=halt_on_error=1): a report with at least one goat frame is a violation, a report without one is a harness bug (exit 2). Non-trivial = a workload with >=2 user goroutines on one connection; distinct = (family, case)."
               " Family sendstorm: 1..8 streams and 0..4 unary loops keep sending while the write side and the read side of the connection fail in the same instant."
-              " Family proxy-overflow-storm: one source floods a destination whose parked writes are released by a concurrent goroutine - no settle point in between, because synctest.Wait orders the phases it separates for the race detector."),
+              " Family proxy-overflow-storm: one source floods a destination whose parked writes are released by a concurrent goroutine - no settle point in between, because synctest.Wait orders the phases it separates for the race detector."
+              " Families c01net (concurrent calls on a ClientConn over real loopback WebSocket / HTTP) and c19conc (concurrent writers on one transport connection) run under the race detector too."),
         jobs=[dict(test="TestC15", race=True, cpu="1,2,4,16", quick=960, thorough=24000)],
         floors={"TestC15:family=c02": 0.05, "TestC15:family=c10": 0.02, "TestC15:family=c18": 0.02, "TestC15:gomaxprocs=16": 0.15, "TestC15:gomaxprocs=1": 0.15, "TestC15:family=c18storm": 0.02},
         assumptions=COMMON_ASSUMPTIONS + ["the race detector only sees the interleavings that were executed: this is search, not proof"],
